@@ -1,6 +1,7 @@
 import Driver.OpsLabel
 import TT.Spec.Nav
 import TT.Spec.More15d
+import TT.Spec.More16d
 namespace Driver
 open TT TT.Tree
 
@@ -71,10 +72,8 @@ def runOpNav (op : String) (args : List String) : String :=
       let ps := paths t
       let outs := (out.splitOn ";").map decPaths
       if outs.length != ps.length then "FAIL arity" else
-      if (ps.zip outs).all (fun (p, o) => match o with
-          | some dom => dom.head? == some p && dom.getLast? == some [] && dom.length == p.length + 1 &&
-              (dom.zip (dom.drop 1)).all (fun (a, b) => b == a.dropLast)
-          | none => false) then "ok" else "FAIL dominance"
+      -- the named specification predicate (TT/Spec/More16d.lean; `dominanceOK_model`, `dominanceOK_unique`)
+      if outs.all (·.isSome) && Spec.dominanceOK t (ps.zip (outs.map (·.getD []))) then "ok" else "FAIL dominance"
   | "P.C19.lca", [t, out] => withTree t fun t =>
       let ps := paths t
       let pairs := ps.flatMap fun p => ps.map fun q => (p, q)
@@ -87,11 +86,11 @@ def runOpNav (op : String) (args : List String) : String :=
       let ents := (out.splitOn ";").filter (· ≠ "")
       let cons := (paths t).filter fun p => match t.get? p with | some (node _ (_ :: _)) => true | _ => false
       if ents.length != cons.length then "FAIL levels-arity" else
-      if ents.all (fun e => match e.splitOn "=" with
-          | [p, h] => (match decPath p, h.toNat? with
-              | some p, some h => ((t.get? p).map Spec.longestDown) == some h
-              | _, _ => false)
-          | _ => false) then "ok" else "FAIL levels"
+      -- the named specification predicate (`levelsOK_model`): every constituent exactly once, with its level
+      let rows := ents.map fun e => match e.splitOn "=" with
+          | [p, h] => (match decPath p, h.toNat? with | some p, some h => some (p, h) | _, _ => none)
+          | _ => none
+      if rows.all (·.isSome) && Spec.levelsOK t (rows.filterMap id) then "ok" else "FAIL levels"
   | "P.C19.numbering", [t, out] => withTree t fun t =>
       let ps := paths t
       let outs := (out.splitOn ";").map decON
